@@ -26,13 +26,15 @@ def gen_case(ctx, rng, i, tag='random', maxops=40):
         if r < 0.35:
             k = rng.choice(kinds)
             beh = rng.choice(['quick', 'quick', 'slow', 'notrun'])
+            if lib.is_persistent(k) and lib.base_kind(k) != 'thread' and rng.random() < 0.25:
+                beh = 'stuck'       # busy with an input that swallows the termination request: only force can stop it
             op = ['create', k, beh]
         elif r < 0.5:
             op = ['wait', rng.randrange(0, 100)]
         elif r < 0.62:
             op = ['terminate', rng.randrange(0, 100)]
         elif r < 0.7:
-            op = ['restart', rng.randrange(0, 100)]
+            op = ['restart', rng.randrange(0, 100), rng.random() < 0.4]      # (.., without force: may be refused)
         else:
             op = ['active']
         threads[rng.randrange(nthreads)].append(op)
@@ -119,6 +121,8 @@ class Run:
                 kind, beh = op[1], op[2]
                 fn, kw = ('p_slow', {'d': 0.02}) if lib.is_persistent(kind) else \
                     (('t_return', {'v': 1}) if beh != 'slow' else ('t_loop', {'n': 20, 'd': 0.01}))
+                if beh == 'stuck':
+                    fn, kw = 'p_pool', {}
                 extra = {'run': False} if beh == 'notrun' else {}
                 rec = {'kind': kind, 'observed_dead': False, 'epoch': 0, 'creating': True, 'w': None, 'owner': s.me().name}
                 self.workers.append(rec)
@@ -134,7 +138,7 @@ class Run:
                 rec['ready'] = True
                 if lib.is_persistent(kind) and beh != 'notrun':
                     try:
-                        r[1].enqueue(1)
+                        r[1].enqueue({'$swallow': True} if beh == 'stuck' else 1)
                     except Exception:
                         pass
             elif name in ('wait', 'terminate', 'restart'):
@@ -159,9 +163,13 @@ class Run:
                     if not lib.is_persistent(rec['kind']) or not w._started:
                         continue
                     rec['epoch'] += 1          # from now on the worker may legitimately be dead or alive
-                    r = lib.call_with_deadline(w.restart, 600.0, timeout=1)
+                    rkw = {'force': False} if len(op) > 2 and op[2] else {}
+                    r = lib.call_with_deadline(w.restart, 600.0, timeout=1, **rkw)
                     rec['epoch'] += 1
-                    if r[0] != 'ok':
+                    if r[0] == 'exc' and isinstance(r[1], RuntimeError) and 'Could not stop' in str(r[1]) and '_started' in w.__dict__:
+                        # a refused restart leaves the worker as it was: the same, still running, incarnation
+                        s.probe('restart-refused')
+                    elif r[0] != 'ok':
                         rec['ready'] = False      # state unknown after a failed / refused restart: no further claims about it
                         rec['unknown'] = True
                     if r[0] == 'ok':
